@@ -33,6 +33,18 @@ name suffixes (name oracle `cands`); which version the lagging cache serves
 annotation and connection-secret propagation are outside (never enabled). The claim's
 own apiVersion (`St.me`, `Claim.id`) is fixed: only the XR version of the controller
 (`Cfg.xrt`) varies between reconciles.
+
+Hardening round. (1) Every call can fail with ANY error class (`Flt.cls`, `Step.callErr` with an
+arbitrary `Err`; an XR read answers NotFound only where the name really was absent: `admissible`), or
+take effect and lose its reply with any class (`Flt.lost`, `Step.callLost`). (2) The world may hold
+OTHER claims of the kind (`St.others`), reconciled by the same controller (`swap`: the model stays
+per claim, the driver switches the claim under reconciliation), and `St.peers` says whether other
+claims' controllers act at all: then the environment also creates XRs and (re)binds XRs to OTHER
+claims (`Env.peerWrite`: anything but binding an XR to THIS claim). (3) Writes that carry the
+resourceVersion of the XR as read (`upgradeXR`, `patchXR _ (some rv)`) are told apart from the
+unconditional ones (Delete, the forced apply, the merge patch of an XR that was not read) in the
+ghost trace (`Ev.xrWriteG` / `Ev.xrWrite`): in a world with peers only the former are protected
+against an XR that was bound to another claim after it was read.
 -/
 namespace Xp.C06
 
@@ -81,7 +93,7 @@ structure XR where
   rv : Nat
   cref : Option CRef     -- spec.claimRef as GetClaimReference() parses it
   crefUid : Bool         -- spec.claimRef carries a key reference.Claim has no field for (uid): never compared
-  labeled : Bool         -- carries this claim's claim-name/claim-namespace labels
+  lbl : Option (String × String)  -- the crossplane.io/claim-name and claim-namespace labels (name, namespace)
   fin : Bool             -- has finalizers
   deleting : Bool
   status : Bool          -- has a status
@@ -94,10 +106,21 @@ inductive Ev where
   | ack (n : Name)
   /-- the claim controller created XR `n` (Create or apply-create) -/
   | create (n : Name)
-  /-- a write or delete of the claim controller took effect on the existing XR `n`;
+  /-- an UNCONDITIONAL write or delete of the claim controller (Delete, the server-side syncer's forced
+  apply, the client-side merge patch of an XR that was not read) took effect on the existing XR `n`;
   `was` = its stored claimRef at that moment -/
   | xrWrite (n : Name) (was : Option CRef)
+  /-- a write that carries the resourceVersion of the XR as read (the managed-fields JSON patch, the
+  client-side merge patch of an XR that was read) took effect on the existing XR `n` -/
+  | xrWriteG (n : Name) (was : Option CRef)
   deriving DecidableEq, Repr
+
+/-- another claim of the kind: its identity, stored object, version history and ghost trace -/
+structure Side where
+  me : CRef
+  claim : Option Claim
+  hist : List Claim
+  trace : List Ev
 
 structure St where
   /-- the identity of the claim this model instance is about (the reconcile request's
@@ -112,6 +135,10 @@ structure St where
   nextRv : Nat
   /-- ghost: newest first -/
   trace : List Ev
+  /-- do other claims' controllers act in this world (create XRs, bind XRs to THEIR claims)? -/
+  peers : Bool := false
+  /-- the other claims of the kind in the store (untouched by every call of this claim's reconcile) -/
+  others : List Side := []
 
 inductive Err where
   | notFound | conflict | invalid | exists | other
@@ -178,16 +205,16 @@ def ackOf (c : Claim) : List Ev :=
   | none => []
 
 /-- the XR a create / apply-create stores: claimRef and claim labels from the request -/
-def newXR (cref : CRef) : XR := ⟨0, some cref, false, true, false, false, false, 0⟩
+def newXR (cref : CRef) : XR := ⟨0, some cref, false, some (cref.name, cref.ns), false, false, false, 0⟩
 
 /-- the merge patch of the client-side syncer (APIPatchingApplicator: the whole desired object sent as a
 JSON merge patch) sets the four fields of spec.claimRef; a key the desired object lacks (uid) is not
 removed by a merge patch -/
-def bindXR (cref : CRef) (x : XR) : XR := { x with cref := some cref, labeled := true }
+def bindXR (cref : CRef) (x : XR) : XR := { x with cref := some cref, lbl := some (cref.name, cref.ns) }
 
 /-- the forced apply of the server-side syncer sets the four fields it owns; a uid key set by
 somebody else stays -/
-def applyBindXR (cref : CRef) (x : XR) : XR := { x with cref := some cref, labeled := true }
+def applyBindXR (cref : CRef) (x : XR) : XR := { x with cref := some cref, lbl := some (cref.name, cref.ns) }
 
 /-- the store after Delete(XR `n`), `x` = its stored state, `x1` = `x` with the foregroundDeletion
 finalizer if requested: an object with finalizers gets a deletionTimestamp (nothing at all changes,
@@ -235,7 +262,7 @@ def exec (s : St) : Req → St × Resp
       else if rv ≠ x.rv then (s, .err .conflict)
       else
         let r := putXR s n x
-        (emit r.1 (.xrWrite n x.cref), .xr r.2)
+        (emit r.1 (.xrWriteG n x.cref), .xr r.2)
   | .deleteXR n fg =>
     match s.xrs n with
     | none => (s, .err .notFound)
@@ -257,7 +284,7 @@ def exec (s : St) : Req → St × Resp
       if (match rv with | some v => v != x.rv | none => false) then (s, .err .conflict)
       else
         let r := putXR s n (bindXR cref x)
-        (emit r.1 (.xrWrite n x.cref), .xr r.2)
+        (emit r.1 (if rv.isSome then .xrWriteG n x.cref else .xrWrite n x.cref), .xr r.2)
   | .applyXR n cref =>
     match s.xrs n with
     | none =>
@@ -273,6 +300,27 @@ def errResp : Outcome → Req → Resp
   | _, _ => .err .other
 
 def sem : Sem St Req Resp := ⟨exec, errResp⟩
+
+/-- An XR read answers NotFound only where the name really was absent (the stored state, or an older
+one served by the cache: `exec (.getXR ..)`); every other error class can hit every call. -/
+def admissible : Req → Err → Bool
+  | .getXR _ _, .notFound => false
+  | _, _ => true
+
+/-- fault of one call in a scheduled run: `Outcome` + an error of a given class (not applied) + a reply
+lost after the call took effect (the controller sees an error and goes on) -/
+inductive Flt where
+  | ok | fail | conflict | crashBefore | crashAfter
+  | cls (e : Err)
+  | lost (e : Err)
+  deriving Repr
+
+/-- the error the controller sees under a fault (inadmissible classes degrade to a server error) -/
+def fltErr : Flt → Req → Err
+  | .conflict, r => if r.isWrite then .conflict else .other
+  | .cls e, r => if admissible r e then e else .other
+  | .lost e, r => if admissible r e then e else .other
+  | _, _ => .other
 
 /-! ### the claim reconciler -/
 
@@ -367,7 +415,7 @@ the reconcile) equals the current one, i.e. nobody wrote the XR since and it is 
 and labelled -/
 def csaNoop (me : CRef) (xr : Option XR) (cur : XR) : Bool :=
   match xr with
-  | some x => x.rv == cur.rv && x.cref == some me && !x.crefUid && x.labeled
+  | some x => x.rv == cur.rv && x.cref == some me && !x.crefUid && x.lbl == some (me.name, me.ns)
   | none => false
 
 /-- `s.client.Apply(ctx, xr, AllowUpdateIf(!cmp.Equal))` = APIPatchingApplicator.Apply -/
@@ -534,6 +582,19 @@ inductive Env : St → St → Prop where
   | xrWrite (s : St) (n : Name) (x x' : XR) : s.xrs n = some x → x'.cref = x.cref →
       Env s (putXR s n x').1
   | xrRemove (s : St) (n : Name) : Env s (setXR s n none)
+  /-- a user creates an XR by hand: it carries no claimRef -/
+  | xrCreate (s : St) (n : Name) (x' : XR) : s.xrs n = none → x'.cref = none → Env s (putXR s n x').1
+  /-- in a world with other claims: ANOTHER claim's controller creates XR `n` or rewrites it in any way
+  (binds it to its claim — even one bound to this claim —, unbinds it), except that it never binds an
+  XR to THIS claim -/
+  | peerWrite (s : St) (n : Name) (x' : XR) : s.peers = true →
+      (x'.cref = some s.me → ∃ x, s.xrs n = some x ∧ x.cref = some s.me) → Env s (putXR s n x').1
+  /-- a change of an existing XR that keeps its resourceVersion and claimRef (a finalizer added to an
+  XR that is already terminating) -/
+  | xrSet (s : St) (n : Name) (x x' : XR) : s.xrs n = some x → x'.cref = x.cref → x'.rv = x.rv →
+      Env s (setXR s n (some x'))
+  /-- writes to other objects (other claims): resourceVersions are consumed, `others` changes -/
+  | tick (s : St) (k : Nat) (o : List Side) : Env s { s with nextRv := s.nextRv + k, others := o }
   | claimWrite (s : St) (c c' : Claim) : s.claim = some c → c'.refName = c.refName → c'.id = c.id →
       Env s (pushClaim s c').1
   | claimGone (s : St) : Env s { s with claim := none }
@@ -545,7 +606,27 @@ inductive EnvAct where
   | xrRemove (n : Name) | xrDelete (n : Name) | claimDelete | claimTouch
   /-- somebody rewrites apiVersion/kind of the claim's spec.resourceRef (the name stays) -/
   | claimRetype (t : GVK)
+  /-- somebody creates XR `n` (absent until then) with this claimRef (`none`: a user, by hand; `some r`:
+  the controller of the claim `r`, which is not a claim of the scenario) -/
+  | xrCreate (n : Name) (r : Option CRef) (uid : Bool)
+  /-- the controller of another claim `r` (not a claim of the scenario) binds the existing XR `n` -/
+  | xrBind (n : Name) (r : CRef) (uid : Bool)
+  /-- `a` (a claim action) applied to the claim in slot `j` of `St.others` -/
+  | other (j : Nat) (a : EnvAct)
   deriving Repr
+
+def St.side (s : St) : Side := ⟨s.me, s.claim, s.hist, s.trace⟩
+
+def St.load (s : St) (d : Side) : St := { s with me := d.me, claim := d.claim, hist := d.hist, trace := d.trace }
+
+/-- make the claim in slot `j` of `others` the claim under reconciliation; the current one takes its
+slot (an involution) -/
+def swap (s : St) (j : Nat) : St :=
+  match s.others[j]? with
+  | some d => { s.load d with others := s.others.set j s.side }
+  | none => s
+
+def lblOf (r : Option CRef) : Option (String × String) := r.map fun r => (r.name, r.ns)
 
 def applyEnv (s : St) : EnvAct → St
   | .xrTouch n g =>
@@ -579,6 +660,20 @@ def applyEnv (s : St) : EnvAct → St
        | some r => if r = mkXRef t r.name then s else (pushClaim s { c with ref := some (mkXRef t r.name) }).1
        | none => s)
     | none => s
+  | .xrCreate n r uid =>
+    match s.xrs n with
+    | some _ => s
+    | none => (putXR s n ⟨0, r, uid && r.isSome, lblOf r, false, false, false, 0⟩).1
+  | .xrBind n r uid =>
+    match s.xrs n with
+    | some x =>
+      if x.cref = some r ∧ x.crefUid = uid ∧ x.lbl = lblOf (some r) then s
+      else (putXR s n { x with cref := some r, crefUid := uid, lbl := lblOf (some r) }).1
+    | none => s
+  | .other j a =>
+    match s.others[j]? with
+    | some _ => swap (applyEnv (swap s j) a) j
+    | none => s
 
 /-! ### system: one claim-controller thread, the environment, crashes -/
 
@@ -591,15 +686,17 @@ structure Sys where
 in-flight reconcile is dropped (all controller-local state is lost) and a new one
 starts with an arbitrary cache lag, name oracle and managed-fields oracle. A crash
 after a call took effect is `callOk` followed by `start`. `callErr`: the call is not applied and
-the controller sees a server error or a conflict. -/
+the controller sees an error of any class. -/
 inductive Step : Sys → Sys → Prop where
   | env (s s' : St) (t : Option P) : Env s s' → Step ⟨s, t⟩ ⟨s', t⟩
   | start (s : St) (t : Option P) (cfg : Cfg) : Step ⟨s, t⟩ ⟨s, some (reconcile cfg)⟩
   | callOk (s : St) (r : Req) (k : Resp → P) : Step ⟨s, some (.call r k)⟩ ⟨(exec s r).1, some (k (exec s r).2)⟩
-  | callErr (s : St) (r : Req) (k : Resp → P) (o : Outcome) : Step ⟨s, some (.call r k)⟩ ⟨s, some (k (errResp o r))⟩
+  /-- the call is not applied and the controller sees an error of ANY admissible class -/
+  | callErr (s : St) (r : Req) (k : Resp → P) (e : Err) : admissible r e = true →
+      Step ⟨s, some (.call r k)⟩ ⟨s, some (k (.err e))⟩
   /-- the call took effect but the reply was lost (timeout): the controller sees an error -/
-  | callLost (s : St) (r : Req) (k : Resp → P) (o : Outcome) :
-      Step ⟨s, some (.call r k)⟩ ⟨(exec s r).1, some (k (errResp o r))⟩
+  | callLost (s : St) (r : Req) (k : Resp → P) (e : Err) : admissible r e = true →
+      Step ⟨s, some (.call r k)⟩ ⟨(exec s r).1, some (k (.err e))⟩
   | done (s : St) (a : Res) : Step ⟨s, some (.ret a)⟩ ⟨s, none⟩
 
 inductive Reach (s0 : St) : Sys → Prop where
@@ -610,27 +707,27 @@ inductive Reach (s0 : St) : Sys → Prop where
 
 structure CallRec where
   req : Req
-  outcome : Outcome
+  outcome : Flt
   /-- reply seen by the controller; for `crashAfter` the reply that was lost -/
   resp : Option Resp
 
 /-- Run one reconcile under a fault plan, applying the scripted environment actions
 `env k` right after call `k`. -/
-def runRec (plan : Plan) (env : Nat → List EnvAct) : Nat → P → St → St × List CallRec × Option Res
+def runRec (plan : Nat → Flt) (env : Nat → List EnvAct) : Nat → P → St → St × List CallRec × Option Res
   | _, .ret a, s => (s, [], some a)
   | k, .call r c, s =>
     let after (s : St) : St := (env k).foldl applyEnv s
     match plan k with
     | .ok =>
       let q := runRec plan env (k+1) (c (exec s r).2) (after (exec s r).1)
-      (q.1, ⟨r, .ok, some (exec s r).2⟩ :: q.2.1, q.2.2)
-    | .fail =>
-      let q := runRec plan env (k+1) (c (errResp .fail r)) (after s)
-      (q.1, ⟨r, .fail, some (errResp .fail r)⟩ :: q.2.1, q.2.2)
-    | .conflict =>
-      let q := runRec plan env (k+1) (c (errResp .conflict r)) (after s)
-      (q.1, ⟨r, .conflict, some (errResp .conflict r)⟩ :: q.2.1, q.2.2)
-    | .crashBefore => (after s, [⟨r, .crashBefore, none⟩], none)
-    | .crashAfter => (after (exec s r).1, [⟨r, .crashAfter, some (exec s r).2⟩], none)
+      (q.1, ⟨r, plan k, some (exec s r).2⟩ :: q.2.1, q.2.2)
+    | .crashBefore => (after s, [⟨r, plan k, none⟩], none)
+    | .crashAfter => (after (exec s r).1, [⟨r, plan k, some (exec s r).2⟩], none)
+    | .lost e =>
+      let q := runRec plan env (k+1) (c (.err (fltErr (.lost e) r))) (after (exec s r).1)
+      (q.1, ⟨r, plan k, some (exec s r).2⟩ :: q.2.1, q.2.2)
+    | f =>
+      let q := runRec plan env (k+1) (c (.err (fltErr f r))) (after s)
+      (q.1, ⟨r, plan k, some (.err (fltErr f r))⟩ :: q.2.1, q.2.2)
 
 end Xp.C06
